@@ -51,7 +51,7 @@ def normalise(r):
     if r["r"] == "err":
         return {"r": "err", "kind": kind_of(r["cause"], r["cause_len"]),
                 "lvl": r["lvl"] if r["lvl"] is not None else [0]}
-    return {"r": "panic"}
+    return {"r": "panic"}     # panic, crash (signal) and hang are all outside the property
 
 
 def accepts(adm, out):
@@ -105,6 +105,10 @@ def out_class(o):
     return "Ok" if o["r"] == "ok" else ("Panic" if o["r"] == "panic" else o["kind"])
 
 
+def raw_class(raw):
+    return {"panic": "Panic", "crash": "Crash", "hang": "Hang"}.get(raw["r"])
+
+
 # --------------------------------------------------------------------------------------------
 # TLC generator runs
 # --------------------------------------------------------------------------------------------
@@ -128,17 +132,45 @@ def gen(chk, mode, shapes, maxlen, tier, tag, workers=8, timeout=3000):
 
 
 def run_driver(chk, bindir, vecs, tag):
-    """vecs: list of {s, a}. -> list of raw driver lines (same order)."""
+    """vecs: list of {s, a}. -> list of raw driver lines (same order).  A vector on which the real
+    parser kills the process (signal) or makes no progress for 10 s (status 43) is data:
+    {"r": "crash"|"hang"}; it is pinned down by re-running from the last answered vector with a flush
+    after every line, then the run resumes behind it."""
     path = os.path.join(chk.work, "vec_%s.ndjson" % tag)
     with open(path, "w") as f:
         for v in vecs:
             f.write(json.dumps({"s": v["s"], "a": v["a"]}, separators=(",", ":")) + "\n")
-    p = core.run_cmd([os.path.join(bindir, "clishapes"), "parse", path], timeout=3000, check=False)
-    if p.returncode != 0:
-        raise core.ToolError("clishapes driver died rc=%s: %s" % (p.returncode, p.stderr[-2000:]))
-    lines = [json.loads(l) for l in p.stdout.splitlines()]
-    if len(lines) != len(vecs) or any(l["i"] != i for i, l in enumerate(lines)):
-        raise core.ToolError("clishapes driver answered %d of %d vectors" % (len(lines), len(vecs)))
+    lines = []
+    flush = False
+    deaths = 0
+    while len(lines) < len(vecs):
+        cmd = [os.path.join(bindir, "clishapes"), "parse", path, str(len(lines))] + (["flush"] if flush else [])
+        p = core.run_cmd(cmd, timeout=3000, check=False)
+        for l in p.stdout.splitlines():
+            try:
+                r = json.loads(l)
+            except ValueError:
+                break           # torn last line of a dying process
+            if r.get("i") != len(lines):
+                raise core.ToolError("clishapes driver answered vector %s where %d was due" % (r.get("i"), len(lines)))
+            lines.append(r)
+        if p.returncode == 0:
+            if len(lines) != len(vecs):
+                raise core.ToolError("clishapes driver answered %d of %d vectors" % (len(lines), len(vecs)))
+            break
+        if p.returncode not in (43,) and p.returncode >= 0:
+            raise core.ToolError("clishapes driver failed rc=%s: %s" % (p.returncode, p.stderr[-2000:]))
+        if flush:      # the vector after the last answered one is the culprit
+            lines.append({"i": len(lines), "r": "hang" if p.returncode == 43 else "crash", "status": p.returncode})
+            flush = False
+            deaths += 1
+            chk.extra["crashes_or_hangs"] = chk.extra.get("crashes_or_hangs", 0) + 1
+            if deaths >= 3 or chk.extra["crashes_or_hangs"] > 3:     # enough evidence; every hang costs 10 s twice
+                chk.extra["vectors_skipped_after_3_crashes_or_hangs"] = chk.extra.get("vectors_skipped_after_3_crashes_or_hangs", 0) + len(vecs) - len(lines)
+                while len(lines) < len(vecs):
+                    lines.append({"i": len(lines), "r": "skipped"})
+        else:
+            flush = True
     return lines
 
 
@@ -265,6 +297,13 @@ def judge_inputs(rng, tier, renders):
             for l in (litl if tier != "quick" else [litl[(n + j) % len(litl)] for j in range(min(2, len(litl)))]):
                 out.append({"s": s, "a": [l, t], "why": "after-literal"})
             out.append({"s": s, "a": [t, b("-h")], "why": "before-help"})
+        # every literal followed by a non-UTF-8, a long and a plain value; specials in second position
+        for l in litl:
+            for t in ([0xFF], b("a" * 300), b("x")):
+                out.append({"s": s, "a": [l, t], "why": "after-literal"})
+        for t in ([0xFF], b("a" * 300), b("-1"), b("256"), b("+5"), [0xC3]):
+            out.append({"s": s, "a": [b("x"), t], "why": "second"})
+            out.append({"s": s, "a": [b("x"), b("7"), t], "why": "third"})
         # long lines: every option literal of the top level 60 times with a value
         for f in shape["fields"]:
             for l in SH.lits(f):
@@ -357,10 +396,11 @@ def check_cause(chk, bindir, tier):
 # --------------------------------------------------------------------------------------------
 def violate(chk, mode, s, a, out, adm, raw, extra=None):
     shape = SH.SHAPES[s - 1]["name"]
-    sig = {"op": "arg_parse", "got": out_class(out), "want": adm_class(adm)}
+    sig = {"op": "arg_parse", "got": raw_class(raw) or out_class(out), "want": adm_class(adm)}
     if extra:
         sig.update(extra)
-    chk.violate(sig, "%s::arg_parse(%s) gave %s, the grammar admits %s" % (shape, show_args(a), show_out(out), show_adm(adm)),
+    chk.violate(sig, "%s::arg_parse(%s) gave %s, the grammar admits %s" % (
+                    shape, show_args(a), (raw_class(raw) or "").upper() or show_out(out), show_adm(adm)),
                 {"mode": mode, "s": s, "a": a, "actual": raw, "admissible": adm})
 
 
@@ -407,6 +447,8 @@ def run(tier):
         lines = run_driver(chk, bindir, vecs, "gen_" + tag)
         st["n"][mode] += len(vecs)
         for v, raw in zip(vecs, lines):
+            if raw["r"] == "skipped":
+                continue
             out = normalise(raw)
             chk.evaluations += 1
             side_checks(chk, v["s"], v["a"], raw)
@@ -479,6 +521,9 @@ def run(tier):
     ji = judge_inputs(rng, tier, render_sample)
     jl = run_driver(chk, bindir, ji, "judge")
     recs = []
+    keep = [k for k, raw in enumerate(jl) if raw["r"] != "skipped"]
+    ji = [ji[k] for k in keep]
+    jl = [jl[k] for k in keep]
     for v, raw in zip(ji, jl):
         side_checks(chk, v["s"], v["a"], raw)
         recs.append({"s": v["s"], "a": v["a"], "out": normalise(raw)})
